@@ -320,6 +320,7 @@ OUTSIDE_NAMES = [b"index.html", b"secret.txt", b"secret.html", b"a.html", b"aa",
 HANDLERS = [(b"/h", b"HANDLER-h", 2), (b"/a/a.html", b"HANDLER-a-a-html", 0), (b"/h/index.html", b"HANDLER-h-index", 2),
             (b"/aa.html", b"HANDLER-aa-html", 2), (b"/q", b"HANDLER-q", 1), (b"/q/index.html", b"HANDLER-q-index", 1)]
 METHODS = [b"GET", b"HEAD", b"POST", b"OPTIONS"]
+RARE_METHODS = [b"PUT", b"DELETE", b"PATCH", b"TRACE", b"CONNECT", b"FOO", b"get"]
 INTERNAL_STATUS = (403, 204)
 PIPE_COMPS = ("pathsanpipe.run", "pathsanpipe.wire", "pathsanpipe.h2")
 SYS_COMP = "pathsanpipe.sys"    # the in-process history in a child process under strace: (status, path strings handed to file system calls)
@@ -488,7 +489,7 @@ def history(rng, n):
                 t = t.split(b"#")[0].split(b"?")[0] + rng.choice(QUERIES)
             reqs.append((rng.choice(METHODS) if rng.random() < 0.5 else b"GET", t, rng.choice([0, 0, 0, 1, 2, 3, 4])))
             continue
-        m = b"GET" if rng.random() < 0.6 else rng.choice(METHODS)
+        m = b"GET" if rng.random() < 0.6 else rng.choice(METHODS) if rng.random() < 0.85 else rng.choice(RARE_METHODS)
         k = 0 if rng.random() < 0.7 else rng.randrange(5)
         reqs.append((m, pipe_target(rng), k))
     return reqs
